@@ -725,7 +725,8 @@ func checkC19(p *Prog, r *Report) {
 				}
 				nPlain++
 				c := fnName(fn) + ":marks-Plain"
-				if nil != fn.Pkg && strings.Contains(fn.Pkg.Pkg.Path()+"/", "/"+iobPkg+"/") {
+				pout := findProxyOut(p)
+				if (nil != fn.Pkg && strings.Contains(fn.Pkg.Pkg.Path()+"/", "/"+iobPkg+"/")) || (nil != pout && topFn(fn) == topFn(pout)) {
 					rRead.OK(c, posOf(st), "the broker's output proxy (C03 decides what it carries)")
 				} else {
 					rRead.Bad(c, posOf(st), "a line which is not shell output is sent as Plain: it is dropped while output is muted, and resets the pause as if the shell had written")
